@@ -110,12 +110,12 @@ def families():
     return out
 
 
-# ---- state shapes of opt-in classes without __setstate__ --------------------------------------------------------------------
+# ---- state shapes x class layouts (mostly opt-in classes without __setstate__) --------------------------------------------------------------------
 # Such an object is restored the way the unpickler's own BUILD does it: dict state into __dict__, (dict|None, slot state) pairs with
 # setattr for the slots, a falsy state is ignored. The enumeration: state shape x class layout x position in the graph x protocol;
 # oracle: the same object pickled with the standard pickle (same state, flag aside).
 SHAPES = ('dict', 'pair', 'pair-none', 'pair-empty-slots', 'none', 'empty')
-LAYOUTS = ('dict-only', 'slots+dict', 'slots-only', 'dict+setattr')
+LAYOUTS = ('dict-only', 'slots+dict', 'slots-only', 'dict+setattr', 'dict+setstate')
 POSITIONS = ('top', 'child', 'in-list', 'in-dict-under-plain', 'chain')
 
 
@@ -132,6 +132,14 @@ def _noset_class(layout, shape):
         sl = {k: getattr(self, k) for k in ('sx', 'sy', 'uid') if k in getattr(type(self), '__slots__', ()) and hasattr(self, k)}
         return {'dict': d or sl, 'pair': (d, sl), 'pair-none': (None, sl), 'pair-empty-slots': (d, {}), 'none': None, 'empty': {}}[shape]
     ns = {'__getstate__': __getstate__, '__module__': G.__name__, '__qualname__': name}
+    if layout == 'dict+setstate':
+        # the class restores itself: the unpickler calls __setstate__ for every state but None (and only then)
+        def __setstate__(self, state):
+            self.__dict__['_setstate_called_with'] = 'dict' if isinstance(state, dict) else type(state).__name__
+            if isinstance(state, tuple):
+                state = state[0] or {}
+            self.__dict__.update(state or {})
+        ns['__setstate__'] = __setstate__
     if layout == 'dict+setattr':
         # attribute assignment is customised (dirty tracking): the unpickler restores a dict state straight into __dict__
         def __setattr__(self, k, v):
@@ -149,7 +157,7 @@ def _noset_class(layout, shape):
 
 
 def _noset_valid(layout, shape):
-    if layout in ('dict-only', 'dict+setattr'):
+    if layout in ('dict-only', 'dict+setattr', 'dict+setstate'):
         return shape in ('dict', 'pair-empty-slots', 'none', 'empty')
     if layout == 'slots-only':
         return shape in ('pair-none', 'none', 'empty')
@@ -170,7 +178,7 @@ def _noset_make(layout, shape, position, n):
             o.uid = 'u%d' % i
             if kid is not None:
                 o.kid = kid
-        if layout not in ('dict-only', 'dict+setattr'):
+        if layout not in ('dict-only', 'dict+setattr', 'dict+setstate'):
             o.sx = i * 10
             o.sy = ['slot', i]
         return o
@@ -218,6 +226,8 @@ def noset_part(ctx, protos):
                 if position == 'chain' and (shape in ('none', 'empty') or (layout == 'slots-only' and False)):
                     continue       # a state which transmits nothing has no child to carry
                 for p in protos:
+                    if layout == 'dict+setstate' and shape == 'empty' and p in (0, 1):
+                        continue      # copyreg._reduce_ex (protocols 0 and 1) drops a falsy state altogether: a quirk of those protocols, not the reference
                     ctx.count()
                     ctx.distinct(('noset', layout, shape, position, p))
                     n += 1
